@@ -33,6 +33,12 @@ ScopeNames == {"openid", "profile", "email", "offline_access"}
 
 IsConfidential(c) == Reg[c].auth # "none"
 
+\* Clients that opted into glob patterns (op.HasRedirectGlobs): cw registers one pattern for login redirects and a different one for
+\* post-logout redirects. "ucwG" names a URI matched by the login pattern only, "plcwG" one matched by the post-logout pattern only.
+LoginGlob(c) == IF c = "cw" THEN {"ucwG"} ELSE {}
+PLGlob(c)    == IF c = "cw" THEN {"plcwG"} ELSE {}
+PostLogoutOK(c, u) == u \in Reg[c].postLogout \cup PLGlob(c)
+
 \* Credential presentations. kind: none | basic | post | assertion ; secret: right | wrong ;
 \* key: own | foreign (assertion naming the caller as issuer but signed with another client's key)
 \* alias: "" or a second client id sent as form parameter client_id next to the Basic credentials of the caller
@@ -61,6 +67,7 @@ Verifies(chall, verifier) ==      \* chall: "none" | "plain:v" | "s256:v" ; veri
 World == [clients |-> [c \in Clients |-> [auth |-> Reg[c].auth, app |-> Reg[c].app,
                                           grants |-> Reg[c].grants, rtypes |-> Reg[c].rtypes,
                                           uris |-> Reg[c].uris, postLogout |-> Reg[c].postLogout, at |-> Reg[c].at,
+                                          loginGlob |-> LoginGlob(c), plGlob |-> PLGlob(c),
                                           \* IDTokenUserinfoClaimsAssertion: the client wants the user claims in the ID token even when an access token is issued
                                           assert |-> c \in {"cx", "cn"}]],
           users |-> Users, uris |-> URIs]
